@@ -55,10 +55,12 @@
 (***************************************************************************)
 EXTENDS Integers, Sequences, FiniteSets, Rational
 
-CONSTANTS PRICE,     \* fill prices      (positive integers)
+CONSTANTS PRICE,     \* fill prices      (integers; > 0 in C02's configurations - its quantifier says
+                     \*                   price > 0 - but C15's also contain 0 and negative prices)
           QTY,       \* fill quantities  (positive integers)
           FEE,       \* fill fees        (non-negative integers)
-          MARK,      \* market prices    (positive integers)
+          MARK,      \* market prices    (integers, INCLUDING 0 and negative ones: C15 speaks of "any market
+                     \*                   event that yields a price" - spreads and sub-zero futures trade there)
           MaxFills   \* bound on the number of fills of a behaviour (model checking only)
 
 VARIABLES pos, exited, net, cash, fees, nfill, fresh, last
@@ -228,11 +230,14 @@ RatFields(P) == /\ IsRational(P.qty) /\ IsRational(P.qmax) /\ IsRational(P.avg) 
 TypeOK ==
     /\ pos.side \in SIDES \cup {"none"}
     /\ RatFields(pos)
-    /\ IsOpen(pos) => IsPos(pos.qty) /\ Geq(pos.qmax, pos.qty) /\ IsPos(pos.avg)
+    /\ IsOpen(pos) => IsPos(pos.qty) /\ Geq(pos.qmax, pos.qty)
                       /\ Geq(pos.feeIn, Zero) /\ Geq(pos.feeOut, Zero) /\ Len(pos.trades) >= 1
     /\ ~IsOpen(pos) => pos = NoPos
     /\ IsRational(net) /\ IsRational(cash) /\ IsRational(fees)
     /\ fresh \in {"none", "fill", "mark"}
+
+\* with positive fill prices (C02's quantifier) the average entry price is positive
+AvgPositive == IsOpen(pos) => IsPos(pos.avg)
 
 (***************************************************************************)
 (* C02                                                                     *)
